@@ -72,6 +72,9 @@ def make_grid(K, N, table, rule="extend", fv=4.0, order=0):
                     boundary=rule, fill_value=fv, autoparse_metadata=False)
 
 
+SENTINEL = 7654321.125
+
+
 def fields(K, N, seed):
     S = (np.arange(K * N * N, dtype=float).reshape(K, N, N) + 1 + seed % 7) * (1 + seed % 3)
     if seed % 2:
@@ -119,6 +122,13 @@ def check_pad(rec, K, N, table, axis, comp, wA, wB, ri, li, seed, g=None, case=N
     widths = {axis: tuple(wA), T.OTHER[axis]: tuple(wB)}
     # the values depend on the case, so that consecutive pads on one Grid never carry the same data
     arrays = fields(K, N, seed + ri * 3 + li + wA[0] * 5 + wA[1] * 7 + wB[0] * 11 + (0 if comp == "s" else 1 if comp == "X" else 2))
+    if (seed + ri + li + wA[0] + wB[1]) % 3 == 0:
+        # missing values among the data (a corner cell of the first face, an edge cell of the last one): they stay where
+        # they are and travel through links like any other value
+        arrays = {k: a.copy() for k, a in arrays.items()}
+        for a in arrays.values():
+            a[0, 0, 0] = np.nan
+            a[K - 1, N - 1, N // 2] = np.nan
     isvec = comp != "s"
     # non-triviality: some halo cell comes through a link
     kinds = set()
@@ -167,17 +177,21 @@ def check_pad(rec, K, N, table, axis, comp, wA, wB, ri, li, seed, g=None, case=N
     for tt in ((0, 1) if "t" in layout else (None,)):
         vv = v if tt is None else v[tt]
         arrs = arrays if tt in (None, 0) else {k: a * 2 + 1000 for k, a in arrays.items()}
+        # the reference marks "any value" cells with NaN; missing data is represented there by a sentinel number
+        arrs_ref = {k: np.where(np.isnan(a), SENTINEL, a) for k, a in arrs.items()}
         for f in range(K):
-            exp = T.ref_padded_face(table, N, arrs, comp, f, widths, rules, bfv, isvec)
+            exp = T.ref_padded_face(table, N, arrs_ref, comp, f, widths, rules, bfv, isvec)
             got = vv[f]
             if got.shape != exp.shape:
                 rec.violation("pad", "shape", case, list(exp.shape), list(got.shape))
                 return
             m = ~np.isnan(exp)
+            missing = m & (np.abs(exp) == SENTINEL)
+            got = np.where(missing & np.isnan(got), exp, got)  # a missing value where one is expected (either sign)
             if not np.array_equal(got[m], exp[m]):
                 (ly, hy), (lx, hx) = widths["Y"], widths["X"]
                 inner = got[ly: ly + N, lx: lx + N]
-                cls = "interior-changed" if not np.array_equal(inner, arrs[comp][f]) else classify(table, f, got, exp, widths, N)
+                cls = "interior-changed" if not np.array_equal(inner, arrs_ref[comp][f]) else classify(table, f, got, exp, widths, N)
                 rec.violation("pad", cls, case, np.where(m, exp, -999999.0), got)
                 return
 
